@@ -37,7 +37,8 @@ PATHS = [
     ("exit_in_eval", "eval 'e a 0; exit 6'; e notreached 0", "exit"),
     ("exit_in_source", "echo 'e insrc 0; exit 11; e notreached 0' > lib.sh; . ./lib.sh; e notreached2 0", "exit"),
     # `exit` run by another trap's handler ends the shell too (with the EXIT trap, once)
-    ("exit_in_err_handler", "trap 'echo \"@hx $?\"; exit 5' ERR; e a 3; e notreached 0", "exit"),
+    # (the handler removes itself first: which failing commands of the EXIT handler would fire ERR is C03's business, not this path's)
+    ("exit_in_err_handler", "trap 'echo \"@hx $?\"; trap - ERR; exit 5' ERR; e a 3; e notreached 0", "exit"),
 ]
 
 # --- nesting contexts: text with {} placeholder
@@ -103,6 +104,10 @@ def build(path, ctx, hist, front, prior=("none", "")):
 
 
 def applicable(path, ctx, hist):
+    # an ERR trap set *inside* a function without errtrace: whether it applies to that function's own commands is an ERR-inheritance
+    # question (brush: no, bash: yes) outside this property's statement
+    if path[0] == "exit_in_err_handler" and ctx[0] in ("func", "func2", "func_in_loop"):
+        return False
     pname = path[0]
     if ctx[0] != "plain" and pname in ("errexit_func", "exit_in_source", "kill_term_handler", "bg_last", "bg_wait", "return_top"):
         return False
